@@ -68,9 +68,10 @@ def main():
     tag = f"{os.path.basename(d)}-{os.getpid()}"
     wt = f"/tmp/wt/run-{tag}"
     out = f"/tmp/vfout-{tag}"
-    sh(f"git -C /repo worktree add -q {wt} HEAD")
+    # a change whose lines a later fix commit rewrote names the commit it applies to
+    sh(f"git -C /repo worktree add -q --detach {wt} {meta.get('applies_to', 'HEAD')}")
     try:
-        env = dict(os.environ, PYTHONPATH=f"{wt}:/tmp/mdeps")
+        env = dict(os.environ, PYTHONPATH=f"{wt}:{VERIF}/.deps")
         if not a.no_confirm:
             rc0, o0 = sh(f"/venv/bin/python {demo}", cwd=wt, env=env, timeout=900)
         rc, o = sh(f"git apply {patch}", cwd=wt)
